@@ -47,6 +47,8 @@ def cases(tier, seed):
     directed = [{"solver": s_, "dt": 2e-2, "forcefree": False, "frictionless": fl, "directed": "resting_with_restitution"} for s_ in SOLVERS for fl in (True, False)]
     directed += [{"solver": s_, "dt": dt_, "forcefree": False, "frictionless": False, "directed": "mixed_resting"} for s_ in SOLVERS for dt_ in (1e-2, 2e-2)]
     directed += [{"solver": s_, "dt": dt_, "forcefree": True, "frictionless": True, "directed": "wedge"} for s_ in SOLVERS for dt_ in (1.44e-2, 1e-2)]
+    # two elastic spheres (e_N = 1) meeting obliquely, no forces: the contact normal turns within the impact step
+    directed += [{"solver": s_, "dt": 2e-2, "forcefree": True, "frictionless": True, "directed": "oblique_elastic"} for s_ in ("Rattle", "Moreau", "DualStormerVerlet")]
     return directed + [{"solver": SOLVERS[i % 4], "dt": DTS[(i // 4) % 3], "forcefree": (i // 12) % 3 == 2, "frictionless": (i // 12) % 3 != 0} for i in range(n)]
 
 
@@ -57,6 +59,19 @@ def _scene(rng, spec):
     from cardillo.forces import Force
     S = System()
     info = {"spheres": [], "planes": 1}
+    if spec.get("directed") == "oblique_elastic":
+        R = 0.2
+        m1, m2 = float(loguniform(rng, 0.5, 2)), float(loguniform(rng, 0.5, 2))
+        # sphere 1 passes sphere 0 with an offset of about one radius: impact at 30-60 degrees off the line of centres
+        off = float(rng.uniform(0.5, 1.4)) * R
+        v = float(rng.uniform(1.5, 3.0))
+        d0 = float(rng.uniform(0.6, 1.0))
+        b0 = PointMass(m1, q0=np.zeros(3), u0=np.zeros(3), name="s0")
+        b1 = PointMass(m2, q0=np.array([-d0, off, 0.0]), u0=np.array([v, 0.0, 0.0]), name="s1")
+        ground = Frame(r_OP=np.array([0.0, 0.0, -5.0]), name="ground")
+        S.add(ground, b0, b1, Sphere2Plane(ground, b0, 0.0, r=R, e_N=1.0, name="c_s0_p0"), Sphere2Sphere(b0, b1, R, R, 0.0, e_N=1.0, name="c_s0_s1"))
+        info.update({"spheres": ["pm", "pm"], "planes": 1, "e_N": 1.0, "mu": 0.0, "start": "oblique_elastic", "tilt": 0.0})
+        return S, info
     if spec.get("directed") == "wedge":
         # a ball bouncing into the corner of an acute wedge of two fixed frictionless planes with DIFFERENT restitution
         # coefficients, no applied forces (impacts against two contacts in the same or in consecutive steps)
